@@ -274,7 +274,7 @@ variable {H : Type} {b : Backend H} {N : Nat} {ref : Nat → H} {dref : Nat → 
 
 /-- the file positions `rewind` computes for the boundary `mmr N'` are the lengths of the two
 layouts of the smaller MMR -/
-theorem rewind_positions (h : Synced b N ref dref df) {N' : Nat}
+theorem rewind_positions_of_inv (hinv : b.pruneList.Inv) {N' : Nat}
     (hroots : ∀ x ∈ b.pruneList.bitmap, x ≤ mmr N') :
     mmr N' - (if mmr N' = 0 then 0 else b.pruneList.getShift (mmr N' - 1)) =
       rk (fun x => !compactedP b.pruneList.bitmap x) (mmr N') ∧
@@ -293,8 +293,8 @@ theorem rewind_positions (h : Synced b N ref dref df) {N' : Nat}
     have hnc : compactedP b.pruneList.bitmap (mmr N' - 1) = false :=
       not_compacted_of_ge hroots (by omega)
     have e : mmr N' = (mmr N' - 1) + 1 := by omega
-    have i1 := hashIdx_eq h.inv _ hnc
-    have i2 := PruneList.getLeafShift_counts h.inv _ hnc
+    have i1 := hashIdx_eq hinv _ hnc
+    have i2 := PruneList.getLeafShift_counts hinv _ hnc
     have e' : 1 + (mmr N' - 1) = mmr N' := by omega
     rw [e'] at i2
     have r1 := rk_succ (fun x => !compactedP b.pruneList.bitmap x) (mmr N' - 1)
@@ -305,6 +305,14 @@ theorem rewind_positions (h : Synced b N ref dref df) {N' : Nat}
     rw [hnl, i2]
     unfold rk at *
     omega
+
+theorem rewind_positions (h : Synced b N ref dref df) {N' : Nat}
+    (hroots : ∀ x ∈ b.pruneList.bitmap, x ≤ mmr N') :
+    mmr N' - (if mmr N' = 0 then 0 else b.pruneList.getShift (mmr N' - 1)) =
+      rk (fun x => !compactedP b.pruneList.bitmap x) (mmr N') ∧
+    nLeaves (mmr N') - (if mmr N' = 0 then 0 else b.pruneList.getLeafShift (mmr N')) =
+      rk (fun x => isLeaf x && !compactedP b.pruneList.bitmap x) (mmr N') :=
+  rewind_positions_of_inv h.inv hroots
 
 /-- **`rewind` against the reference**: rewinding a synced backend to the boundary `mmr N'`
 (at or above every pruned root), re-adding the leaves `rm` (leaf positions of the smaller MMR that
@@ -357,4 +365,71 @@ theorem rewind (h : Synced b N ref dref df) {N' : Nat} (hN : N' ≤ N)
     rw [p1, p2]; exact ⟨hl1, hl2⟩
 
 end Synced
+
+namespace Live
+variable {H : Type} {b : Backend H} {N : Nat} {ref : Nat → H} {dref : Nat → Bytes} {df : AOF Bytes}
+
+/-- **a further `rewind` inside a unit of work in which nothing has been appended yet** (the chain
+rewinds block by block: `rewind_single_block` per block, all in one extension): from the in-unit
+invariant with empty buffers, rewinding to the boundary `mmr N'` (at or above every pruned root)
+and re-adding the unpruned leaves `rm` of the smaller MMR gives the in-unit invariant for the
+first `N'` leaves, again with empty buffers; the positions asked of the two files lie inside
+what is on disk. -/
+theorem rewind (h : Live b N ref dref df) (hb1 : b.hashFile.buffer = []) (hb2 : df.buffer = [])
+    {N' : Nat} (hN : N' ≤ N)
+    (hroots : ∀ x ∈ b.pruneList.bitmap, x ≤ mmr N') (rm : Bitmap)
+    (hrm : ∀ x ∈ rm, 1 ≤ x ∧ x ≤ mmr N' ∧ height (x - 1) = 0 ∧ ¬ PrunedBy b.pruneList.bitmap (x - 1)) :
+    ∃ df', Live (b.rewind (mmr N') rm) N' ref dref df' ∧
+      (b.rewind (mmr N') rm).hashFile.buffer = [] ∧ df'.buffer = [] ∧
+      (mmr N' - (if mmr N' = 0 then 0 else b.pruneList.getShift (mmr N' - 1)) ≤ b.hashFile.disk.length ∧
+       nLeaves (mmr N') - (if mmr N' = 0 then 0 else b.pruneList.getLeafShift (mmr N')) ≤ df.disk.length) ∧
+      ∀ x, x ∈ (b.rewind (mmr N') rm).leafSet.bitmap ↔ (x ∈ b.leafSet.bitmap ∧ x ≤ mmr N') ∨ x ∈ rm := by
+  obtain ⟨p1, p2⟩ := Synced.rewind_positions_of_inv (b := b) h.inv hroots
+  have hmono := mmr_le_mmr hN
+  have hv1 := AOF.view_length h.hashWF
+  have hv2 := AOF.view_length h.dataWF
+  unfold AOF.sizeUnsyncInElmts at hv1 hv2
+  rw [hb1] at hv1; rw [hb2] at hv2
+  simp only [List.length_nil, Nat.add_zero] at hv1 hv2
+  have hl1 : rk (fun x => !compactedP b.pruneList.bitmap x) (mmr N') ≤ b.hashFile.bsp := by
+    rw [← hv1, h.hashLay, List.length_map]; unfold layout
+    rw [filter_range_length]; exact rk_mono _ hmono
+  have hl2 : rk (fun x => isLeaf x && !compactedP b.pruneList.bitmap x) (mmr N') ≤ df.bsp := by
+    rw [← hv2, h.dataLay, List.length_map]; unfold dataLayout
+    rw [filter_range_length]; exact rk_mono _ hmono
+  have hmem := LeafSet.mem_rewind b.leafSet (mmr N') rm h.lsSorted
+  obtain ⟨w1, v1, e1⟩ := AOF.rewind_of_wf h.hashWF hb1 _ hl1
+  obtain ⟨w2, v2, e2⟩ := AOF.rewind_of_wf h.dataWF hb2 _ hl2
+  refine ⟨df.rewind (rk (fun x => isLeaf x && !compactedP b.pruneList.bitmap x) (mmr N')), ?_, ?_, e2, ?_, hmem⟩
+  · refine ⟨h.inv, ?_, ?_, ?_, w2, ?_, ?_, ?_, ?_, hroots, by have := h.bound; omega, h.pruneFile⟩
+    · show (b.hashFile.rewind _).WF
+      rw [p1]; exact w1
+    · show (b.hashFile.rewind _).view = _
+      rw [p1, v1, h.hashLay, ← List.map_take]
+      unfold layout
+      rw [filter_range_take _ hmono]
+      rfl
+    · show b.dataFile.rewind _ = _
+      rw [p2, h.data]; rfl
+    · rw [v2, h.dataLay, ← List.map_take]
+      unfold dataLayout
+      rw [filter_range_take _ hmono]
+      rfl
+    · exact sorted_or (sorted_removeRange h.lsSorted _ _)
+    · intro x hx
+      rcases (hmem x).1 hx with ⟨hx1, hx2⟩ | hx1
+      · obtain ⟨a1, _, a3⟩ := h.lsLeaf x hx1
+        exact ⟨a1, hx2, a3⟩
+      · obtain ⟨a1, a2, a3, _⟩ := hrm x hx1
+        exact ⟨a1, a2, a3⟩
+    · intro x hx
+      rcases (hmem x).1 hx with ⟨hx1, _⟩ | hx1
+      · exact h.unpruned x hx1
+      · exact (hrm x hx1).2.2.2
+  · show (b.hashFile.rewind _).buffer = []
+    rw [p1]; exact e1
+  · rw [p1, p2]
+    exact ⟨Nat.le_trans hl1 h.hashWF.le, Nat.le_trans hl2 h.dataWF.le⟩
+
+end Live
 end GV.Store
